@@ -158,7 +158,7 @@ def edit_part(run, rng, thorough, table):
                 raise MachineryError(f"cannot build the fresh object for {base} {me['mut']}: {ex}")
             nways = B.EDIT_WAYS.get(me["mut"]["kind"], 1)
             if thorough:
-                plans = [(be, w, rd) for be in base_routes for w in range(nways) for rd in rng.sample(readers, 2)]
+                plans = [(be, w, rd) for be in base_routes for w in range(nways) for rd in rng.sample(readers, 1)]
             else:
                 plans = [(r0, w, readers[(w + rng.randrange(4)) % 4]) for w in range(nways)]
                 plans += [(rng.choice(base_routes), rng.randrange(nways), rng.choice(readers))]
